@@ -5,6 +5,7 @@ import (
 	"go/constant"
 	"go/token"
 	"go/types"
+	"os"
 	"regexp"
 	"sort"
 	"strings"
@@ -277,7 +278,30 @@ func init() {
 				}
 			})
 			if !okNil {
-				c.Violate(fnKey(f)+" / outbound-branch", f.Pos(), "no branch on FlowType()!=Inbound returning nil: outbound traffic reaches the system rules")
+				// the gate may be a helper's boolean (a phi after expansion) rather than one comparison: then every exit
+				// that hands back something other than nil, and every evaluation of a rule, lies under the established
+				// fact FlowType()==Inbound, and some exit returning nil does not
+				under, free := true, false
+				eachInstr(f, func(ins ssa.Instruction) {
+					switch x := ins.(type) {
+					case *ssa.Return:
+						for _, cs := range returnValueCases(x, 0) {
+							fs := canonFacts(cs.block, cs.extra...)
+							if isNilConst(stripConv(cs.val)) {
+								if !fs[gateEq] {
+									free = true
+								}
+							} else if !fs[gateEq] {
+								under = false
+							}
+						}
+					case ssa.CallInstruction:
+						if isStaticCallTo(x, dcr) && !canonFacts(x.Block())[gateEq] {
+							under = false
+						}
+					}
+				})
+				c.Check(under && free, fnKey(f)+" / outbound-branch", f.Pos(), "outbound traffic returns nil before any system rule is evaluated: every rule evaluation and every non-nil result lies under FlowType()==Inbound (%v) and a nil return does not (%v)", under, free)
 			}
 		},
 	})
@@ -587,7 +611,28 @@ func init() {
 					}
 					// every alternative of the bound is the cap itself or 0 (a defensive "no nodes" answer is below any cap)
 					okAll, some := true, false
+					// leaves of the bound through phis, loop-carried ones included (a cap computed lazily inside the loop)
+					var leaves []ssa.Value
+					seenL := map[ssa.Value]bool{}
+					var walkL func(v ssa.Value)
+					walkL = func(v ssa.Value) {
+						if seenL[v] {
+							return
+						}
+						seenL[v] = true
+						if ph, isPhi := v.(*ssa.Phi); isPhi {
+							for _, e := range ph.Edges {
+								walkL(e)
+							}
+							return
+						}
+						leaves = append(leaves, v)
+					}
 					for _, cs := range splitPhiCases(rhs, b.Block(), nil, 0) {
+						walkL(cs.val)
+					}
+					for _, leaf := range leaves {
+						cs := retCase{val: leaf}
 						if k, isK := constInt(stripConv(cs.val)); isK && k == 0 {
 							continue
 						}
@@ -596,6 +641,9 @@ func init() {
 							some = true
 						} else {
 							okAll = false
+							if os.Getenv("SG_DEBUG_CAP") != "" {
+								fmt.Fprintln(os.Stderr, "cap alternative:", rp)
+							}
 						}
 					}
 					if okAll && some {
